@@ -491,7 +491,7 @@ func (p *hplan) encode() ([]byte, string, error) {
 	if err != nil {
 		return nil, cose.MediaTypeEnvelope, err
 	}
-	if flip {
+	if flip && len(b) > 3 {
 		b[len(b)-3] ^= 1
 	}
 	return b, cose.MediaTypeEnvelope, nil
